@@ -30,6 +30,7 @@ type backend struct {
 	closed   bool
 	out      []byte // bytes written by the terminal
 	wscript  []wres // scripted write results (consumed in order); empty = accept all
+	short    int    // > 0: accept at most this many bytes per Write (a nearly full pty); replies must still arrive whole
 	sizes    [][2]int
 	teeCheck []byte
 }
@@ -104,6 +105,10 @@ func (b *backend) Write(p []byte) (int, error) {
 		}
 		b.out = append(b.out, p[:n]...)
 		return n, r.err
+	}
+	if b.short > 0 && len(p) > b.short {
+		b.out = append(b.out, p[:b.short]...)
+		return b.short, nil
 	}
 	b.out = append(b.out, p...)
 	return len(p), nil
@@ -329,6 +334,10 @@ type runner struct {
 
 func (r *runner) start() {
 	r.be = newBackend()
+	// every third case runs against a backend that takes replies in pieces of 1 to 3 bytes
+	if s := r.hdr.w + 3*r.hdr.h + len(r.hdr.id); s%3 == 0 {
+		r.be.short = 1 + s%3 + (s/3)%3
+	}
 	r.fe = &frontend{}
 	mode := termemu.TextReadModeRune
 	if r.hdr.mode == 1 {
